@@ -186,13 +186,19 @@ def system_cases(draw):
             f["mem"] = draw(st.sampled_from(["C", "C", "F", "T"]))
         flows.append(f)
     stocks = []
+    used_s = set()
     for i in range(draw(st.integers(0, 3))):
         name = draw(st.sampled_from(["in use", "Landfill (old)", "stock", "S-1"])) + f" {i}"
         if draw(st.integers(0, 4)) == 0:
             name = "in use stock of all products that were put on the market in the region during the whole modelling period " + name
-        if conservative_key(name) in used:
+        if flows and draw(st.integers(0, 3)) == 0:
+            # flows and stocks are separate namespaces (and separate files: <name>.csv / <name>_stock.csv):
+            # a stock may carry the name of a flow, e.g. both called after the process 'use'
+            name = flows[draw(st.integers(0, len(flows) - 1))]["name"]
+        k_ = conservative_key(name)
+        if k_ in used_s or any(k_ + sfx in used for sfx in ("stock", "inflow", "outflow")):
             continue
-        used.add(conservative_key(name))
+        used_s.add(k_)
         stocks.append({"name": name, "proc": draw(st.sampled_from([None] + list(range(nproc)))), "letters": ["t"] + draw(gen.ordered_subtuple(allL[1:]))})
     return {"universe": U, "procs": procs, "flows": flows, "stocks": stocks}
 
